@@ -1,9 +1,9 @@
 """C11 — CategoricalData operations preserve the per-dump sequence (correspondence + search).
 
-The REAL katdal.categorical.CategoricalData / concatenate_categorical are driven with random series and random
-operation sequences; after every operation the observables (unique values as ids, indices, events, per-dump
-expansion, query results) are compared with the extracted Coq model (the tie) and with the extracted Coq spec
-on the per-dump list (the property)."""
+The REAL katdal.categorical.CategoricalData / concatenate_categorical / unique_in_order are driven with random series
+and random operation sequences; after every operation the observables (unique values as ids, indices, events,
+per-dump expansion, query results, len, segments) are compared with the extracted Coq model (the tie) and with the
+extracted Coq spec on the per-dump list (the property)."""
 import itertools
 import warnings
 
@@ -11,26 +11,34 @@ import numpy as np
 
 warnings.simplefilter('ignore')
 
-RULE = ('random categorical series (N <= 10 dumps, <= 6 events, values drawn from a 5-value pool of one kind: int, '
-        'str, tuple, list (unhashable), ndarray wrapped in ComparableArrayWrapper) and random operation sequences of '
-        'length <= 6 over getitem (int / slice with negative bounds and steps / mask / int list), the six comparisons, '
-        'add (new / existing / no value), remove, add_unmatched, align, partition+concatenate (allow_repeats on/off, '
-        'optionally continuing with the concatenated result), concatenation with an independent series (before/after, '
-        'repeats on/off), partition followed by remove() on the first part (siblings and parent must not change), '
-        'remove_repeats, segments; a separate stream uses float '
-        'series with NaN objects (oracle: per-dump list only). A case is one (series, operation sequence); '
-        'non-trivial when the series has >= 2 events and the sequence has >= 2 operations at least one of which '
-        'mutates; distinct by (kind, values, events, operations)')
-ASSUMPTIONS = ['series start with events strictly increasing from 0 to N (the documented constructor contract); '
-               'segment arguments are strictly increasing (documented); add(event) with event >= N, empty segment '
-               'lists and unsorted segments are out of domain (only "exception or same as model" is demanded)',
+RULE = ('random categorical series (N <= 14 dumps, <= 8 events incl. one event per dump, first event at dump 0 or '
+        '(15 %) later, values drawn from a 5-value pool of one kind: int, str, tuple, list (unhashable), ndarray '
+        'wrapped in ComparableArrayWrapper) and random operation sequences of length <= 8 over getitem (int / slice '
+        'with negative bounds and steps / mask / int list; on any series, also one that starts after dump 0), the six '
+        'comparisons over ALL dumps, len, segments, add (new / existing / no value; at, before and beyond the ends), '
+        'remove, add_unmatched (explicit and default match_dist), align (incl. on the own events), '
+        'partition alone and partition+concatenate with general segments (starting before the first event, running '
+        'past N; allow_repeats on / off / not given; optionally continuing with the concatenated result), '
+        'concatenation with one or several independent series, partition followed by remove() on the first part '
+        '(siblings and parent must not change), remove_repeats, the remove/align/add(0) label pipeline; malformed '
+        'arguments (unsorted / duplicate / empty / out-of-range segments, wrong-length masks, out-of-range dumps) are '
+        'mixed in; a separate stream uses float series with NaN objects (oracle: per-dump list only); a third stream '
+        'calls unique_in_order directly (hashable and tokenize paths, with and without return_inverse). A case is '
+        'one (series, operation sequence); non-trivial when the series has >= 2 events and the sequence has >= 2 '
+        'operations at least one of which mutates; distinct by (kind, values, events, operations)')
+ASSUMPTIONS = ['constructor contract: events strictly increasing, one more event than values (the first event need not '
+               'be dump 0); segment arguments strictly increasing (documented); add(event) with event >= N, empty / '
+               'unsorted / duplicate segment lists, wrong-length masks are out of domain (only "exception or same as '
+               'model" is demanded, behaviour proved in C11_add_outside / C11_getitem_wrong_mask)',
                'identity-based NaN handling of Python dicts is not modelled: in the NaN stream only the per-dump list '
-               'is compared', 'numpy searchsorted/argmin/unique/nonzero/r_ are modelled (count of <=, first minimum, '
-               'sorted distinct, filter), not verified; Python slice.indices+range is compared exhaustively for '
-               'n <= 7 with the Gallina slice_range on every run']
+               'is compared', 'numpy searchsorted/argmin/unique/nonzero/r_/slice assignment are modelled (count of <=, '
+               'first minimum, sorted distinct, filter, fill), not verified; Python slice.indices+range is compared '
+               'exhaustively for n <= 7 with the Gallina slice_range on every run']
 
 OPN = {0: 'getitem', 1: 'cmp', 2: 'add', 3: 'remove', 4: 'add_unmatched', 5: 'align', 6: 'partconcat',
-       7: 'remove_repeats', 8: 'segments', 9: 'concat_with', 10: 'part_mutate'}
+       7: 'remove_repeats', 8: 'segments', 9: 'concat_with', 10: 'part_mutate', 11: 'len', 14: 'concat_many',
+       16: 'partition', 17: 'label_pipeline'}
+MUTATING = (2, 3, 4, 5, 7, 9, 14, 17)       # operations whose observable is [tag, new state, ...]
 CMP = ['==', '!=', '<', '>', '<=', '>=']
 
 # ---------------------------------------------------------------------------------------------
@@ -135,15 +143,15 @@ class ImplError(Exception):
 
 
 def apply_impl(cd, op, V):
-    """Returns (new cd, observable in the shape of the model's output)."""
-    from katdal.categorical import concatenate_categorical
+    """Returns (new cd, observable in the shape of the model's output: [wire tag, ...])."""
+    from katdal.categorical import CategoricalData, concatenate_categorical
     t = op[0]
     if t == 0:
         try:
             res = cd[mk_key(op[1])]
         except IndexError:
-            return cd, [0, [2]]
-        return cd, [0, gres_impl(res, op[1], V)]
+            return cd, [13, [2]]
+        return cd, [13, gres_impl(res, op[1], V)]
     if t == 1:
         other = V.py(op[2])
         b = [cd == other, cd != other, None, None, None, None][op[1]] if op[1] < 2 else \
@@ -151,9 +159,7 @@ def apply_impl(cd, op, V):
         b = np.asarray(b)
         if b.dtype != bool or b.shape != (int(cd.events[-1]),):
             raise ImplError('comparison returned dtype %s shape %s' % (b.dtype, b.shape))
-        if b[:int(cd.events[0])].any():
-            raise ImplError('comparison is True for dumps before the first event (no value there)')
-        return cd, [1, [int(x) for x in b[int(cd.events[0]):]]]
+        return cd, [12, [int(x) for x in b]]
     if t == 2:
         cd.add(op[1], V.py(op[2][0]) if op[2] else None)
         return cd, [2, state_impl(cd, V)]
@@ -161,7 +167,10 @@ def apply_impl(cd, op, V):
         cd.remove(V.py(op[1]))
         return cd, [3, state_impl(cd, V)]
     if t == 4:
-        cd.add_unmatched(np.array(op[1], dtype=int), op[2])
+        if op[2] is None:
+            cd.add_unmatched(np.array(op[1], dtype=int))          # default match_dist
+        else:
+            cd.add_unmatched(np.array(op[1], dtype=int), op[2])
         return cd, [4, state_impl(cd, V)]
     if t == 5:
         cd.align(np.array(op[1], dtype=int))
@@ -169,8 +178,8 @@ def apply_impl(cd, op, V):
     if t == 6:
         parts = cd.partition(np.array(op[1], dtype=int))
         pstates = [state_impl(p, V) for p in parts]
-        cc = concatenate_categorical(parts, allow_repeats=bool(op[2]))
-        return (cc if op[3] else cd), [6, pstates, state_impl(cc, V)]
+        cc = concatenate_categorical(parts) if op[2] == 2 else concatenate_categorical(parts, allow_repeats=bool(op[2]))
+        return (cc if op[3] else cd), [18, pstates, state_impl(cc, V)]
     if t == 7:
         cd.remove_repeats()
         return cd, [7, state_impl(cd, V)]
@@ -181,10 +190,28 @@ def apply_impl(cd, op, V):
         parts[0].remove(V.py(op[2]))
         return cd, [10, state_impl(parts[0], V), [state_impl(p, V) for p in parts[1:]], state_impl(cd, V)]
     if t == 9:
-        from katdal.categorical import CategoricalData
         c2 = CategoricalData([V.py(i, wrap=True) for i in op[1]], np.array(op[2]))
-        cc = concatenate_categorical([c2, cd] if op[4] else [cd, c2], allow_repeats=bool(op[3]))
+        ps = [c2, cd] if op[4] else [cd, c2]
+        cc = concatenate_categorical(ps) if op[3] == 2 else concatenate_categorical(ps, allow_repeats=bool(op[3]))
         return cc, [9, state_impl(cc, V)]
+    if t == 11:
+        return cd, [11, len(cd)]
+    if t == 14:
+        others = [CategoricalData([V.py(i, wrap=True) for i in vs], np.array(es)) for vs, es in op[1]]
+        ps = others[:op[3]] + [cd] + others[op[3]:]
+        cc = concatenate_categorical(ps) if op[2] == 2 else concatenate_categorical(ps, allow_repeats=bool(op[2]))
+        return cc, [14, state_impl(cc, V)]
+    if t == 16:
+        parts = cd.partition(np.array(op[1], dtype=int))
+        return cd, [16, [state_impl(p, V) for p in parts]]
+    if t == 17:
+        # the label pipeline of visdatav4.py / h5datav3.py / h5datav2.py
+        v = V.py(op[1])
+        cd.remove(v)
+        cd.align(np.array(op[2], dtype=int))
+        if cd.events[0] > 0:
+            cd.add(0, v)
+        return cd, [17, state_impl(cd, V)]
     raise ValueError(op)
 
 
@@ -198,18 +225,28 @@ def wf_state(st, N=None, nan=False):
 # ---------------------------------------------------------------------------------------------
 # generators
 
-def gen_segs(rng, N, documented=True):
-    k = rng.randint(1, 4)
+def gen_segs(rng, N, documented=True, unsorted_ok=True):
+    k = rng.randint(1, 5)
     inner = sorted(rng.sample(range(1, N), min(k - 1, N - 1))) if N > 1 else []
     segs = [0] + inner + [N]
     if not documented:
         r = rng.random()
-        if r < 0.4 and len(segs) > 2:
+        if r < 0.3 and len(segs) > 2:
             segs = segs[1:]                  # does not start at 0
-        elif r < 0.7 and len(segs) > 2:
+        elif r < 0.5 and len(segs) > 2:
             segs = segs[:-1]                 # does not end at N
-        elif r < 0.85:
-            segs = segs + [N + rng.randint(1, 3)]
+        elif r < 0.7:
+            segs = segs + [N + rng.randint(1, 3)]      # runs past N
+        elif r < 0.8 and unsorted_ok:
+            segs = segs[:]
+            rng.shuffle(segs)                # unsorted (out of domain; not for partition: segment lengths < 0)
+        elif r < 0.9:
+            i = rng.randrange(len(segs))
+            segs = segs[:i] + [segs[i]] + segs[i:]     # a duplicate boundary (out of domain)
+        elif r < 0.95:
+            segs = []                        # empty (out of domain)
+        else:
+            segs = [rng.randint(0, N)]       # a single boundary: no segment at all
     return segs
 
 
@@ -223,54 +260,81 @@ def gen_key(rng, N):
         st = rng.choice([[], [1], [2], [-1], [-2], [3], [-3]])
         return [1, b(), b(), st]
     if r < 0.8:
-        return [2, [int(rng.random() < 0.5) for _ in range(N)]]
+        n = N if rng.random() < 0.93 else rng.choice([0, 1, max(N - 1, 0), N + 1])     # wrong length: out of domain
+        p = rng.choice([0.5, 0.5, 0.0, 1.0, 0.15])
+        return [2, [int(rng.random() < p) for _ in range(n)]]
     n = rng.randint(0, 4)
     return [3, [rng.randrange(N) if rng.random() < 0.93 else rng.randint(-2, N + 1) for _ in range(n)]]
 
 
-def gen_op(rng, N, kind):
-    r = rng.random()
-    nv = 5
-    if r < 0.16:
-        return [0, gen_key(rng, N)]
-    if r < 0.24:
-        o = rng.randrange(2 if kind in ('array', 'nan') else 6)
-        return [1, o, rng.randrange(nv)]
-    if r < 0.42:
-        v = rng.choice([[], [rng.randrange(nv)], [rng.randrange(nv)]])
-        if kind == 'nan' and v and rng.random() < 0.4:
-            v = [100 + rng.randrange(1000, 2000)]
-        return [2, rng.randrange(N), v]
-    if r < 0.54:
-        return [3, rng.randrange(nv)]
-    if r < 0.64:
-        return [4, gen_segs(rng, N, rng.random() < 0.8), rng.choice([1, 1, 1, 0, 2])]
-    if r < 0.76:
-        return [5, gen_segs(rng, N, rng.random() < 0.8)]
-    if r < 0.9:
-        return [6, gen_segs(rng, N, rng.random() < 0.85), int(rng.random() < 0.5), int(rng.random() < 0.6)]
-    if r < 0.94:
-        return [7]
-    if r < 0.955:
-        return [8]
-    if r < 0.975:
-        return [10, gen_segs(rng, N, True), rng.randrange(nv)]
-    n2 = rng.randint(1, 5)
+def gen_series(rng, maxn=5, nv=5):
+    n2 = rng.randint(1, maxn)
     k2 = rng.randint(1, min(n2, 3))
     ev2 = [0] + sorted(rng.sample(range(1, n2), k2 - 1)) + [n2]
-    return [9, [rng.randrange(nv) for _ in range(k2)], ev2, int(rng.random() < 0.5), int(rng.random() < 0.5)]
+    return [rng.randrange(nv) for _ in range(k2)], ev2
 
 
-def gen_case(rng, kind=None, maxn=10):
+def gen_op(rng, N, kind, events=None):
+    r = rng.random()
+    nv = 5
+    nan = kind == 'nan'
+    if r < 0.13:
+        return [0, gen_key(rng, N)]
+    if r < 0.21:
+        o = rng.randrange(2 if kind in ('array', 'nan') else 6)
+        return [1, o, rng.randrange(nv)]
+    if r < 0.37:
+        v = rng.choice([[], [rng.randrange(nv)], [rng.randrange(nv)]])
+        if nan and v and rng.random() < 0.4:
+            v = [100 + rng.randrange(1000, 2000)]
+        e = rng.randrange(N) if rng.random() < 0.9 else rng.choice([N, N + 1, N - 1, 0])
+        return [2, e, v]
+    if r < 0.48:
+        return [3, rng.randrange(nv)]
+    if r < 0.57:
+        return [4, gen_segs(rng, N, rng.random() < 0.8), rng.choice([1, 1, None, None, 0, 2])]
+    if r < 0.68:
+        if events and rng.random() < 0.15:
+            return [5, list(events)]                     # align on the (initial) own events
+        return [5, gen_segs(rng, N, rng.random() < 0.8)]
+    if r < 0.80:
+        return [6, gen_segs(rng, N, rng.random() < 0.75, False), rng.choice([0, 1, 2]), int(rng.random() < 0.6)]
+    if r < 0.84:
+        return [7]
+    if r < 0.86:
+        return [8]
+    if r < 0.875:
+        return [11]
+    if r < 0.895:
+        return [10, gen_segs(rng, N, True), rng.randrange(nv)]
+    if nan or r < 0.925:
+        vs2, ev2 = gen_series(rng)
+        return [9, vs2, ev2, rng.choice([0, 1, 2]), int(rng.random() < 0.5)]
+    if r < 0.95:
+        k = rng.randint(0, 3)
+        return [14, [list(gen_series(rng, 4)) for _ in range(k)], rng.choice([0, 1, 2]), rng.randint(0, k)]
+    if r < 0.975:
+        return [16, gen_segs(rng, N, rng.random() < 0.7, False)]
+    return [17, rng.randrange(nv), gen_segs(rng, N, rng.random() < 0.9)]
+
+
+def gen_case(rng, kind=None, maxn=14):
     kind = kind or rng.choice(['int', 'int', 'str', 'str', 'tuple', 'list', 'array'])
-    N = rng.randint(1, maxn)
-    k = rng.randint(1, min(N, 6))
+    N = rng.randint(1, maxn) if rng.random() < 0.9 else rng.choice([1, 2, maxn])
+    r = rng.random()
+    k = N if r < 0.06 else rng.randint(1, min(N, 8))          # 6 %: one event per dump (maximal)
     ev = [0] + sorted(rng.sample(range(1, N), k - 1)) + [N]
+    if N > 1 and kind != 'nan' and rng.random() < 0.15:
+        # the first event is not dump 0 (legal: what remove() of the first value leaves behind)
+        s0 = rng.randint(1, N - 1)
+        inner = [e for e in ev[1:-1] if e > s0]
+        ev = [s0] + inner + [N]
+        k = len(ev) - 1
     nv = rng.randint(1, 4)
     vals = [rng.randrange(nv) for _ in range(k)]
     if kind == 'nan':
         vals = [v if rng.random() < 0.5 else 100 + j for j, v in enumerate(vals)]
-    ops = [gen_op(rng, N, kind) for _ in range(rng.randint(1, 6))]
+    ops = [gen_op(rng, N, kind, ev) for _ in range(rng.choice([1, 2, 3, 4, 5, 6, 6, 7, 8]))]
     return dict(kind=kind, values=vals, events=ev, ops=ops)
 
 
@@ -289,9 +353,17 @@ def op_form(op):
         return CMP[op[1]]
     if t == 2:
         return 'value' if op[2] else 'novalue'
-    if t == 6:
-        return 'repeats=%d' % op[2]
+    if t == 4:
+        return 'default' if op[2] is None else 'dist'
+    if t in (6, 14):
+        return 'repeats=%s' % ('default' if op[2] == 2 else op[2])
+    if t == 9:
+        return 'repeats=%s' % ('default' if op[3] == 2 else op[3])
     return ''
+
+
+def segs_ok(s, minlen=1):
+    return len(s) >= minlen and all(a < b for a, b in zip(s, s[1:]))
 
 
 def in_domain(op, st):
@@ -299,31 +371,18 @@ def in_domain(op, st):
     uv, idx, ev, ex = st
     N = ev[-1]
     t = op[0]
-
-    def segs_ok(s, minlen=1):
-        return len(s) >= minlen and all(a < b for a, b in zip(s, s[1:]))
     if t == 0 and op[1][0] == 2:
         return len(op[1][1]) == N
     if t == 2:
         return 0 <= op[1] < N
     if t in (4, 5):
         return segs_ok(op[1])
-    if t in (6, 10):
-        return segs_ok(op[1], 2) and op[1][-1] <= N
-    if t == 9:
+    if t in (6, 10, 16):
+        return segs_ok(op[1], 2) and (t != 10 or op[1][-1] <= N)
+    if t in (9, 14):
         return ev[0] == 0
-    return True
-
-
-def spec_applies(op, st):
-    uv, idx, ev, ex = st
-    N = ev[-1]
-    t = op[0]
-    if t == 0:
-        return ev[0] == 0
-    if t == 6:
-        s = op[1]
-        return ev[0] == 0 and s[0] >= 0 and s[-1] <= N
+    if t == 17:
+        return segs_ok(op[2]) and 0 in op[2] and N in op[2] and N > 0
     return True
 
 
@@ -345,8 +404,11 @@ def run_case(ctx, case, mout, nanmode=False, note=True):
     if mst is not None and not same_state(st, mst, nanmode):
         ctx.disagree(sig0 + 'op=init;symptom=state', case, st, mst, 'constructor state differs from model', kind='tie')
         return
+    if not wf_state(st, case['events'][-1], nanmode) or st[2] != list(case['events']):
+        ctx.disagree(sig0 + 'op=init;symptom=invariant', case, st, mst, 'constructor does not establish the invariants')
+        return
     cur = mst if (mst is not None and not nanmode) else st
-    N0 = case['events'][-1]
+    ctx.count('start0=%d' % int(case['events'][0] == 0))
     for n, op in enumerate(case['ops']):
         name = OPN[op[0]]
         sig = sig0 + 'op=%s;form=%s;' % (name, op_form(op))
@@ -364,14 +426,16 @@ def run_case(ctx, case, mout, nanmode=False, note=True):
             err = e
             obs = [-1]
         ctx.count('op=' + name)
+        ctx.count('domain=' + ('in' if dom else 'out'))
         ctx.traces_validated += 1
+        t = op[0]
         if mo is None:
             # no model binary (searching): python-side invariants only
-            if err is None and dom and op[0] in (2, 3, 4, 5, 7, 9) and not wf_state(obs[1], nan=nanmode):
+            if err is None and dom and t in MUTATING and not wf_state(obs[1], nan=nanmode):
                 ctx.disagree(sig + 'symptom=invariant', sub, obs, None, 'invariants broken after operation')
             if err is not None:
                 return
-            cur = obs[1] if op[0] in (2, 3, 4, 5, 7, 9) else (obs[2] if op[0] == 6 and op[3] else cur)
+            cur = obs[1] if t in MUTATING else (obs[2] if t == 6 and op[3] else cur)
             continue
         if err is not None:
             if mo != [-1] and dom:
@@ -391,43 +455,79 @@ def run_case(ctx, case, mout, nanmode=False, note=True):
         if not same_obs(obs, mo, nanmode, V):
             ctx.disagree(sig + 'symptom=tie:%s' % first_diff(obs, mo), sub, obs, mo,
                          '%s: implementation observable differs from the Coq model' % name, kind='tie',
-                         spec=(mo[2] if len(mo) > 2 and obs[0] != 6 else (mo[3:] if obs[0] == 6 else None)))
+                         spec=(mo[3:] if obs[0] == 18 else (mo[2] if len(mo) > 2 else None)))
             return
         # ---- property: implementation vs spec on the per-dump list, and invariants
-        t = op[0]
         if t in (0, 1):
-            if spec_applies(op, cur) and not same_query(obs[1], mo[2], nanmode, V):
+            # on ANY well-formed series: the same query on the list of option values (C11_getitem_full / C11_cmp_full)
+            if not same_query(obs[1], mo[2], nanmode, V):
                 ctx.disagree(sig + 'symptom=differs_from_per_dump_list', sub, obs[1], mo[1],
                              '%s differs from the same query on the explicit per-dump list' % name, spec=mo[2])
-        elif t in (2, 3, 4, 5, 7, 9):
+            if t == 1 and any(obs[1][:cur[2][0]]):
+                ctx.disagree(sig + 'symptom=true_before_first_event', sub, obs[1], mo[1],
+                             'comparison is True for a dump before the first event (no value there)', spec=mo[2])
+        elif t in (2, 3, 4, 5, 7, 9, 14):
             newst = obs[1]
-            if not wf_state(newst, None if t == 5 else cur[2][-1] + (op[2][-1] if t == 9 else 0), nanmode):
+            N1 = None if t == 5 else cur[2][-1] + (op[2][-1] if t == 9 else 0) + \
+                (sum(es[-1] for _, es in op[1]) if t == 14 else 0)
+            if not wf_state(newst, N1, nanmode):
                 ctx.disagree(sig + 'symptom=invariant', sub, newst, mo[1], 'invariants broken after %s' % name)
             if not same_list(newst[3], mo[2], nanmode, V):
                 ctx.disagree(sig + 'symptom=per_dump_list', sub, newst[3], mo[1][3],
                              'per-dump list after %s is not the documented one' % name, spec=mo[2])
+            if t == 5 and not set(newst[2]) <= set(op[1]):
+                ctx.disagree(sig + 'symptom=event_not_a_segment_start', sub, newst, mo[1],
+                             'align left an event that is not one of the given segment starts')
+            if t == 2 and op[2] and not nanmode:
+                try:
+                    back = V.vid(cd[op[1]])
+                except Exception as e:
+                    back = repr(e)
+                if back != op[2][0]:
+                    ctx.disagree(sig + 'symptom=read_after_add', sub, back, op[2][0],
+                                 'cd[e] after cd.add(e, v) is not v', spec=op[2][0])
+            if t == 3 and not nanmode and (op[1] in newst[0] or op[1] in newst[3]):
+                ctx.disagree(sig + 'symptom=value_not_gone', sub, newst, mo[1], 'value still present after remove')
             if nanmode and newst[2] != mo[1][2]:
                 return      # identity-based NaN handling (not modelled) made the event lists diverge
             cur = newst if nanmode else mo[1]
-        elif t == 6:
-            pst, cst = obs[1], obs[2]
-            if spec_applies(op, cur):
-                if [p[3] for p in pst] != mo[3] and not nanmode:
-                    ctx.disagree(sig + 'symptom=parts', sub, [p[3] for p in pst], [p[3] for p in mo[1]],
-                                 'partition parts are not the cuts of the per-dump list', spec=mo[3])
-                if not all(wf_state(p, None, nanmode) and p[2][0] == 0 for p in pst):
-                    ctx.disagree(sig + 'symptom=part_invariant', sub, pst, mo[1], 'a part breaks the invariants')
-                s = op[1]
-                if s[0] == 0 and s[-1] == cur[2][-1]:
-                    if not same_list(cst[3], mo[4], nanmode, V) or not wf_state(cst, cur[2][-1], nanmode):
-                        ctx.disagree(sig + 'symptom=concat_not_identity', sub, cst, mo[2],
-                                     'concatenate(partition) is not the identity on the per-dump list', spec=mo[4])
-                    if not op[2] and len(pst) > 1 and any(a == b for a, b in zip(cst[1], cst[1][1:])) and not nanmode:
-                        ctx.disagree(sig + 'symptom=repeats_left', sub, cst, mo[2], 'repeats left after concatenation')
-            if op[3]:
-                if nanmode and cst[2] != mo[2][2]:
-                    return
-                cur = cst if nanmode else mo[2]
+        elif t == 17:
+            newst = obs[1]
+            if not (wf_state(newst, cur[2][-1], nanmode) and newst[2][0] == 0 and set(newst[2]) <= set(op[2])):
+                ctx.disagree(sig + 'symptom=invariant', sub, newst, mo[1],
+                             'label pipeline: result is not a well-formed series from 0 to N on the scan boundaries')
+            cur = newst if nanmode else mo[1]
+        elif t in (6, 16):
+            pst = obs[1]
+            s = op[1]
+            if [p[3] for p in pst] != mo[3 if t == 6 else 2] and not nanmode:
+                ctx.disagree(sig + 'symptom=parts', sub, [p[3] for p in pst], [p[3] for p in mo[1]],
+                             'partition parts are not the cuts of the (padded) per-dump list', spec=mo[3 if t == 6 else 2])
+            if not all(wf_state(p, b - a, nanmode) and p[2][0] == 0 and p[0] == cur[0]
+                       for p, (a, b) in zip(pst, zip(s, s[1:]))) or len(pst) != len(s) - 1:
+                ctx.disagree(sig + 'symptom=part_invariant', sub, pst, mo[1], 'a part breaks the invariants')
+            if t == 6:
+                cst = obs[2]
+                if not same_list(cst[3], mo[4], nanmode, V) or not wf_state(cst, s[-1] - s[0], nanmode) or cst[2][0] != 0:
+                    ctx.disagree(sig + 'symptom=concat_of_partition', sub, cst, mo[2],
+                                 'concatenate(partition) is not the window of the (padded) per-dump list', spec=mo[4])
+                if s[0] == 0 and s[-1] == cur[2][-1] and cur[2][0] == 0 and not same_list(cst[3], cur[3], nanmode, V):
+                    ctx.disagree(sig + 'symptom=concat_not_identity', sub, cst, mo[2],
+                                 'concatenate(partition) is not the identity on the per-dump list', spec=cur[3])
+                if op[2] in (0, 2) and len(pst) > 1 and any(a == b for a, b in zip(cst[1], cst[1][1:])) and not nanmode:
+                    ctx.disagree(sig + 'symptom=repeats_left', sub, cst, mo[2], 'repeats left after concatenation')
+                if op[3]:
+                    if nanmode and cst[2] != mo[2][2]:
+                        return
+                    cur = cst if nanmode else mo[2]
+        elif t == 8 and not nanmode:
+            sg = obs[1]
+            glued = [v for a, b, v in sg for _ in range(b - a)]
+            if glued != cur[3] or [a for a, b, v in sg] != cur[2][:-1] or [b for a, b, v in sg] != cur[2][1:]:
+                ctx.disagree(sig + 'symptom=segments', sub, sg, mo[1], 'segments() do not tile the per-dump list', spec=cur[3])
+        elif t == 11:
+            if obs[1] != len(cur[1]):
+                ctx.disagree(sig + 'symptom=len', sub, obs[1], mo[1], 'len() is not the number of events', spec=len(cur[1]))
         if len(cur[1]) == 0:
             return
 
@@ -464,39 +564,63 @@ def same_obs(obs, mo, nanmode, V):
     t = obs[0]
     if t != mo[0]:
         return False
-    if t in (0, 1):
+    if t in (12, 13):
         return same_query(obs[1], mo[1], nanmode, V)
     if t == 8:
+        return obs[1] == mo[1] if not nanmode else True
+    if t == 11:
         return obs[1] == mo[1] if not nanmode else True
     if t == 10:
         if nanmode:
             return nanclass(obs[3][3], V) == nanclass(mo[3][3], V) and \
                 [nanclass(p[3], V) for p in obs[2]] == [nanclass(p[3], V) for p in mo[2]]
         return obs[1:] == mo[1:]
-    if t == 6:
+    if t == 18:
         if nanmode:
             return [nanclass(p[3], V) for p in obs[1]] == [nanclass(p[3], V) for p in mo[1]] and \
                 nanclass(obs[2][3], V) == nanclass(mo[2][3], V)
         return obs[1] == mo[1] and obs[2] == mo[2]
+    if t == 16:
+        if nanmode:
+            return [nanclass(p[3], V) for p in obs[1]] == [nanclass(p[3], V) for p in mo[1]]
+        return obs[1] == mo[1]
     if nanmode:
         return nanclass(obs[1][3], V) == nanclass(mo[1][3], V)
     return obs[1] == mo[1]
 
 
 def first_diff(obs, mo):
-    if obs[0] in (2, 3, 4, 5, 7, 9):
+    if obs[0] in (2, 3, 4, 5, 7, 9, 14, 17):
         for nm, a, b in zip(('unique_values', 'indices', 'events', 'expand'), obs[1], mo[1]):
             if a != b:
                 return nm
-    if obs[0] == 6:
+    if obs[0] in (16, 18):
         return 'parts' if obs[1] != mo[1] else 'concat'
     if obs[0] == 10:
         return 'mutated_part' if obs[1] != mo[1] else ('siblings' if obs[2] != mo[2] else 'parent')
     return 'result'
 
 
+def wire_op(op):
+    """harness operation -> operation of Model/CategoricalX.v:stepx"""
+    t = op[0]
+    if t == 0:
+        return [13, op[1]]
+    if t == 1:
+        return [12, op[1], op[2]]
+    if t == 4:
+        return [4, op[1], 1 if op[2] is None else op[2]]          # default match_dist (C11_source_pieces: = 1)
+    if t == 6:
+        return [18, op[1], 0 if op[2] == 2 else op[2], op[3]]     # allow_repeats not given = False
+    if t == 9:
+        return [9, op[1], op[2], 0 if op[3] == 2 else op[3], op[4]]
+    if t == 14:
+        return [14, op[1], 0 if op[2] == 2 else op[2], op[3]]
+    return op
+
+
 def wire_case(case):
-    return [11, [case['values'], case['events'], case['ops']]]
+    return [112, [case['values'], case['events'], [wire_op(o) for o in case['ops']]]]
 
 
 def model_outputs(ctx, cases):
@@ -527,8 +651,88 @@ def check_slices(ctx):
     ctx.extra['slice_cases_exhaustive'] = len(cases)
 
 
+# ---------------------------------------------------------------------------------------------
+# unique_in_order on its own (public function; used by concatdata.py for names, versions, dump periods, ...)
+
+def uio_case(ctx, case):
+    """case = dict(uio=kind, values=[ids]); compares with wire_113 (first occurrences in order + inverse)."""
+    from katdal.categorical import unique_in_order
+    kind, ids = case['uio'], case['values']
+    V = Values(kind)
+    sig = 'kind=%s;op=unique_in_order;' % kind
+    els = [V.py(i, wrap=True) for i in ids]
+    try:
+        u1 = unique_in_order(els)
+        u2, inv = unique_in_order(els, return_inverse=True)
+        u3 = unique_in_order(els, False)
+    except Exception as e:
+        ctx.disagree(sig + 'symptom=raises:%s' % type(e).__name__, case, repr(e), None, 'unique_in_order raised')
+        return
+    from katdal.categorical import ComparableArrayWrapper
+    unw = ComparableArrayWrapper.unwrap
+    obs = [[V.vid(unw(x)) for x in u2], [int(i) for i in inv]]
+    ctx.traces_validated += 1
+    ctx.count('op=unique_in_order')
+    ctx.count('uio_path=' + ('tokenize' if kind in ('list', 'array') else 'dict'))
+    if not isinstance(u1, list) or [V.vid(unw(x)) for x in u1] != obs[0] or [V.vid(unw(x)) for x in u3] != obs[0]:
+        ctx.disagree(sig + 'symptom=return_inverse_changes_result', case, [V.vid(unw(x)) for x in u1], obs[0],
+                     'unique_in_order without return_inverse differs from the one with it')
+    if np.asarray(inv).dtype.kind != 'i':
+        ctx.disagree(sig + 'symptom=inverse_dtype', case, str(np.asarray(inv).dtype), 'int', 'inverse is not an int array')
+    # property (independent of the model): first occurrences in original order, inverse reconstructs the input
+    seen = []
+    for i in ids:
+        if i not in seen:
+            seen.append(i)
+    if obs[0] != seen or [obs[0][j] if 0 <= j < len(obs[0]) else None for j in obs[1]] != ids:
+        ctx.disagree(sig + 'symptom=not_first_occurrences', case, obs, [seen, [seen.index(i) for i in ids]],
+                     'unique_in_order is not "first occurrences in order" / inverse does not reconstruct the input',
+                     spec=[seen, [seen.index(i) for i in ids]])
+    if ctx.model_ok:
+        mo = ctx.model([[113, ids]])[0]
+        if mo[:2] != obs or mo[2:] != obs:
+            ctx.disagree(sig + 'symptom=tie', case, obs, mo, 'unique_in_order differs from the Coq model', kind='tie')
+
+
+def gen_uio(rng):
+    kind = rng.choice(['int', 'str', 'tuple', 'list', 'array'])
+    n = rng.choice([0, 1, 2, 3, 5, 8, 12])
+    nv = rng.randint(1, 5)
+    return dict(uio=kind, values=[rng.randrange(nv) for _ in range(n)])
+
+
+def run_uio(ctx, cases):
+    """batched variant of uio_case (one model call)"""
+    if ctx.model_ok:
+        outs = ctx.model([[113, c['values']] for c in cases])
+    else:
+        outs = [None] * len(cases)
+    saved_ok = ctx.model_ok
+    for c, o in zip(cases, outs):
+        # reuse uio_case with the precomputed model answer
+        ctx.model_ok = False
+        try:
+            uio_case(ctx, c)
+        finally:
+            ctx.model_ok = saved_ok
+        if o is not None:
+            from katdal.categorical import ComparableArrayWrapper, unique_in_order
+            V = Values(c['uio'])
+            try:
+                u2, inv = unique_in_order([V.py(i, wrap=True) for i in c['values']], return_inverse=True)
+            except Exception:
+                continue
+            obs = [[V.vid(ComparableArrayWrapper.unwrap(x)) for x in u2], [int(i) for i in inv]]
+            if o[:2] != obs or o[2:] != obs:
+                ctx.disagree('kind=%s;op=unique_in_order;symptom=tie' % c['uio'], c, obs, o,
+                             'unique_in_order differs from the Coq model (first occurrences / literal token loop)',
+                             kind='tie')
+        ctx.note_case(('uio', c['uio'], tuple(c['values'])), nontrivial=len(set(c['values'])) < len(c['values']),
+                      sample=None)
+
+
 def nontrivial(case):
-    return len(case['events']) >= 3 and len(case['ops']) >= 2 and any(o[0] in (2, 3, 4, 5, 6, 7, 9) for o in case['ops'])
+    return len(case['events']) >= 3 and len(case['ops']) >= 2 and any(o[0] in MUTATING + (6,) for o in case['ops'])
 
 
 def canon(case):
@@ -544,12 +748,32 @@ def run_witnesses(ctx):
         run_case(ctx, w, mo, nanmode=(w['kind'] == 'nan'))
 
 
+def corpus_cases():
+    """minimised inputs of earlier misses / mutation self-tests, kept as regression inputs (corpus/C11/*.json)"""
+    import glob
+    import json
+    import os
+    d = os.path.join(os.path.dirname(os.path.dirname(os.path.dirname(os.path.abspath(__file__)))), 'corpus', 'C11')
+    out = []
+    for f in sorted(glob.glob(os.path.join(d, '*.json'))):
+        try:
+            doc = json.load(open(f))
+        except Exception:
+            continue
+        out += doc if isinstance(doc, list) else [doc]
+    return out
+
+
 def run(ctx):
     rng = ctx.rng
     run_witnesses(ctx)
     check_slices(ctx)
-    n = ctx.scale(6000, 150000)
-    batch = 3000
+    cc = [c for c in corpus_cases() if 'ops' in c]
+    for c, o in zip(cc, model_outputs(ctx, cc)):
+        run_case(ctx, c, o, nanmode=(c['kind'] == 'nan'))
+        ctx.count('corpus')
+    n = ctx.scale(24000, 200000)
+    batch = 4000
     done = 0
     while done < n:
         m = min(batch, n - done)
@@ -561,15 +785,18 @@ def run(ctx):
                           sample=dict(kind=c['kind'], values=c['values'], events=c['events'], ops=c['ops']))
             ctx.count('kind=' + c['kind'])
             ctx.count('N=%d' % c['events'][-1])
+            ctx.count('nops=%d' % len(c['ops']))
         done += m
     # NaN stream: per-dump list only
-    nn = ctx.scale(800, 15000)
+    nn = ctx.scale(2000, 20000)
     cases = [gen_case(rng, kind='nan') for _ in range(nn)]
     outs = model_outputs(ctx, cases)
     for c, o in zip(cases, outs):
         run_case(ctx, c, o, nanmode=True)
         ctx.note_case(canon(c), nontrivial=nontrivial(c), sample=None)
         ctx.count('kind=nan')
+    # unique_in_order on its own
+    run_uio(ctx, [gen_uio(rng) for _ in range(ctx.scale(1500, 15000))])
     # thorough: cross-check extraction inside Coq on a sample
     if ctx.tier == 'thorough' and ctx.model_ok:
         from vh import core
@@ -593,6 +820,10 @@ def replay(ctx, doc):
     case = doc.get('case') or {}
     if 'slice' in case:
         check_slices(ctx)
+        return
+    if 'uio' in case:
+        uio_case(ctx, case)
+        ctx.note_case(('uio', case['uio'], tuple(case['values'])))
         return
     mo = model_outputs(ctx, [case])[0]
     run_case(ctx, case, mo, nanmode=(case.get('kind') == 'nan'))
